@@ -61,7 +61,10 @@ CHECKS = {
         "a failed minimisation leaves no trace; stored minima are outputs; every converged output is represented; "
         "Metropolis rule about the regenerated kernel and, with Mathlib's Lebesgue measure, acceptance probability "
         "exp(-dE/T) for uphill moves. Correspondence: every subset of failing steps on short runs, long random "
-        "runs, real traces, and a deterministic metropolis grid including u exactly at the Boltzmann factor.",
+        "runs, real traces, and a deterministic metropolis grid including u exactly at the Boltzmann factor. "
+        "'Bonding intact' for molecular systems is defined: MolecularCoordinates.same_bonds is read statement by "
+        "statement and C08_same_bonds_iff_perm proves its verdict is equality of the bond multisets (kinds with "
+        "multiplicities); the real function is validated against a bond rule written in the harness.",
    note="np.exp > 0 and np.random.random in [0,1) are oracle contracts; prepare_initial_coordinates tests only "
         "warnflag (mirrored, reported as an observation).",
    technique="Lean 4 proof (fold characterisation + measure of the acceptance set) + regenerated kernels + "
@@ -161,7 +164,9 @@ CHECKS = {
         "cycle invariant by induction over any add_data / lowest_point sequence for all four flag combinations. The "
         "scan variant, the eight formulas (with symbolic inverse lemma) and the call order of the GaussianProcess "
         "methods are regenerated from the source; real ModelData / GaussianProcess (sklearn fit bypassed from outside) "
-        "against the exact-rational model.",
+        "against the exact-rational model. read_data on an object that already holds a dataset is an operation of the "
+        "model (which cached counts the source refreshes is read by the translator): C19_read_data re-establishes the "
+        "class invariant from any earlier state.",
    note="theorems exact, floats compared to 1e-9; sigma is a parameter checked against the exact variance on every run; "
         "sigma = 0 is the excluded guard (the code yields NaN there, reported as an observation).",
    technique="Lean 4 proof (algebraic laws, scan invariants, update-cycle induction) + regenerated formulas/scan/call order "
@@ -227,7 +232,9 @@ CHECKS = {
         "under the regenerated overlap rule (negation witness for the original first-component rule); projection gives "
         "a unit vector with outward components zeroed and the others positively scaled under the explicit guard that "
         "some component survives (the all-zeroed case is characterised); Rayleigh-Ritz value = v^T A v / v^T v and "
-        "gradient 2(Au - fu), vanishing iff u is an eigenvector, for quadratic surfaces in any dimension. Flip rule "
+        "gradient 2(Au - fu), vanishing iff u is an eigenvector, for quadratic surfaces in any dimension, also at the "
+        "displacement the source uses (rayleigh_ritz_function_gradient is read statement by statement, its literal "
+        "displacement emitted: C15_bridge_rayleigh). Flip rule "
         "and sign tests regenerated from the source; correspondence on dyadic vectors x all pinning patterns, dyadic "
         "quadratics and traced eigen-solver calls; predicate against dense numpy eigh in dimensions 2-6.",
    note="global convergence of L-BFGS-B on the Rayleigh quotient and finite-difference accuracy on non-quadratic "
